@@ -240,6 +240,26 @@ theorem getOrCreate_changes (l : L) (a : Addr) :
     | some acc => right; exact ⟨rfl, rfl⟩
     | none => left; refine ⟨?_, ?_, ?_⟩ <;> first | rfl | trivial
 
+theorem getOrCreate_obj (l : L) (a : Addr) : (getOrCreate l a).2 = (viewAcct l a).getD {} := by
+  unfold viewAcct
+  rw [getOrCreate_eq]
+  cases KV.get l.accounts a with
+  | some acc => rfl
+  | none =>
+    simp only
+    cases loadAcct l a with
+    | some acc => rfl
+    | none => rfl
+
+/-- how the object a write works on (`accm`) relates to the object the ledger had for the account (`acc`): the same dirty set, the
+same memo of committed values — plus, when the written key was neither written nor memoised yet, the value the layers below hold
+for it; either way the written key is in the dirty set or in the memo -/
+def MemoOf (l : L) (a : Addr) (k : String) (acc accm : Acct) : Prop :=
+  accm.dirtyState = acc.dirtyState ∧
+  (accm.originState = acc.originState ∨
+    (KV.get acc.dirtyState k = none ∧ KV.get acc.originState k = none ∧ accm.originState = KV.set acc.originState k (below l a k))) ∧
+  ((KV.get accm.dirtyState k).isSome = true ∨ (KV.get accm.originState k).isSome = true)
+
 structure SetSpec (l : L) (a : Addr) (k : String) (v : Bytes) (r : L) : Prop where
   cache : r.cache = l.cache
   db : r.db = l.db
@@ -247,7 +267,7 @@ structure SetSpec (l : L) (a : Addr) (k : String) (v : Bytes) (r : L) : Prop whe
   nrev : r.nextRev = l.nextRev
   other : ∀ b, b ≠ a → KV.get r.accounts b = KV.get l.accounts b
   self : ∃ accm, KV.get r.accounts a = some { accm with dirtyState := KV.set accm.dirtyState k v } ∧
-    (∀ k', rdAcct l a k' accm = peekState l a k') ∧ ivOf accm = peekInner l a
+    (∀ k', rdAcct l a k' accm = peekState l a k') ∧ ivOf accm = peekInner l a ∧ MemoOf l a k ((viewAcct l a).getD {}) accm
   chg : (viewAcct l a = none ∧ KV.get l.accounts a = none ∧
           r.changes = l.changes ++ [.createObject a, .storage a k (peekState l a k)]) ∨
         ((viewAcct l a).isSome = true ∧ r.changes = l.changes ++ [.storage a k (peekState l a k)])
@@ -261,6 +281,7 @@ theorem setState_spec (l : L) (a : Addr) (k : String) (v : Bytes) : SetSpec l a 
   obtain ⟨hc, hd⟩ := getOrCreate_cache_db l a
   obtain ⟨hr1, hr2⟩ := getOrCreate_rev l a
   have hpk := getState_peek l a k
+  have hobj := getOrCreate_obj l a
   unfold setState
   rw [getState_eq] at hpk ⊢
   simp only at hpk ⊢
@@ -270,11 +291,11 @@ theorem setState_spec (l : L) (a : Addr) (k : String) (v : Bytes) : SetSpec l a 
   -- the ledger after the read
   have key : ∀ (lr : L) (accm : Acct), lr.cache = l1.cache → lr.db = l1.db → lr.revisions = l1.revisions → lr.nextRev = l1.nextRev →
       lr.changes = l1.changes → (∀ b, b ≠ a → KV.get lr.accounts b = KV.get l1.accounts b) → KV.get lr.accounts a = some accm →
-      (∀ k', rdAcct l a k' accm = rdAcct l a k' acc) → ivOf accm = ivOf acc →
+      (∀ k', rdAcct l a k' accm = rdAcct l a k' acc) → ivOf accm = ivOf acc → MemoOf l a k acc accm →
       SetSpec l a k v { putAcct lr a { (KV.get lr.accounts a).getD {} with dirtyState := KV.set ((KV.get lr.accounts a).getD {}).dirtyState k v } with
         changes := (putAcct lr a { (KV.get lr.accounts a).getD {} with dirtyState := KV.set ((KV.get lr.accounts a).getD {}).dirtyState k v }).changes ++
           [.storage a k (rdAcct l1 a k acc)] } := by
-    intro lr accm e1 e2 e3 e4 e5 e6 e7 e8 e9
+    intro lr accm e1 e2 e3 e4 e5 e6 e7 e8 e9 e10
     rw [e7]
     simp only [Option.getD_some]
     refine ⟨by show lr.cache = _; rw [e1, hc], by show lr.db = _; rw [e2, hd], by show lr.revisions = _; rw [e3, hr1],
@@ -282,7 +303,7 @@ theorem setState_spec (l : L) (a : Addr) (k : String) (v : Bytes) : SetSpec l a 
     · intro b hb
       show KV.get (KV.set lr.accounts a _) b = _
       rw [KV.get_set_ne _ _ _ _ (Ne.symm hb), e6 b hb, hoth b hb]
-    · refine ⟨accm, ?_, fun k' => by rw [e8, hrd], by rw [e9, hiv]⟩
+    · refine ⟨accm, ?_, fun k' => by rw [e8, hrd], by rw [e9, hiv], by rw [← hobj]; exact e10⟩
       show KV.get (KV.set lr.accounts a _) a = _
       rw [KV.get_set_eq]
     · have hprev : rdAcct l1 a k acc = peekState l a k := by rw [rdAcct_congr hc hd, hrd]
@@ -297,15 +318,16 @@ theorem setState_spec (l : L) (a : Addr) (k : String) (v : Bytes) : SetSpec l a 
         show lr.changes ++ [Change.storage a k (peekState l a k)] = l.changes ++ [Change.storage a k (peekState l a k)]
         rw [e5, h3]
   cases h1 : KV.get acc.dirtyState k with
-  | some v0 => simp only; exact key l1 acc rfl rfl rfl rfl rfl (fun _ _ => rfl) hpres (fun _ => rfl) rfl
+  | some v0 => simp only; exact key l1 acc rfl rfl rfl rfl rfl (fun _ _ => rfl) hpres (fun _ => rfl) rfl ⟨rfl, Or.inl rfl, Or.inl (by rw [h1]; rfl)⟩
   | none =>
     simp only
     cases h2 : KV.get acc.originState k with
-    | some v0 => simp only; exact key l1 acc rfl rfl rfl rfl rfl (fun _ _ => rfl) hpres (fun _ => rfl) rfl
+    | some v0 => simp only; exact key l1 acc rfl rfl rfl rfl rfl (fun _ _ => rfl) hpres (fun _ => rfl) rfl ⟨rfl, Or.inl rfl, Or.inr (by rw [h2]; rfl)⟩
     | none =>
       simp only
       refine key (putAcct l1 a { acc with originState := KV.set acc.originState k (below l1 a k) }) _ rfl rfl rfl rfl rfl
         (fun b hb => KV.get_set_ne _ _ _ _ (Ne.symm hb)) (putAcct_get _ _ _) ?_ rfl
+        ⟨rfl, Or.inr ⟨h1, h2, by show KV.set acc.originState k (below l1 a k) = _; rw [below_congr hc hd]⟩, Or.inr (by show (KV.get (KV.set acc.originState k _) k).isSome = true; rw [KV.get_set_eq]; rfl)⟩
       intro k'
       unfold rdAcct
       simp only
@@ -374,7 +396,7 @@ theorem peekInner_setState (l : L) (a : Addr) (k : String) (v : Bytes) (b : Addr
   have sp := setState_spec l a k v
   by_cases hb : b = a
   · subst hb
-    obtain ⟨accm, h1, _, h3⟩ := sp.self
+    obtain ⟨accm, h1, _, h3, _⟩ := sp.self
     rw [peekInner_of_present h1, ← h3]; rfl
   · exact peekInner_congr sp.cache sp.db b (sp.other b hb)
 
